@@ -222,8 +222,18 @@ struct PHist {
     // made strict / reversed -- so that saturation and inclusion by one component only do occur
     PR& P = *slot[s].p;
     Constraint_System cs = r.chance(1, 2) ? Constraint_System(P.domain1().minimized_constraints()) : Constraint_System(P.domain2().minimized_constraints());
-    unsigned m = 0; for (Constraint_System::const_iterator i = cs.begin(); i != cs.end(); ++i) ++m;
+    unsigned m = 0, meq = 0; for (Constraint_System::const_iterator i = cs.begin(); i != cs.end(); ++i) { ++m; if (i->is_equality()) ++meq; }
     if (m == 0) return rnd_c(n, true);
+    if (meq > 0 && r.chance(2, 3)) {
+      // an equality of one component: its hyperplane contains the whole product; ask about the strict /
+      // non-strict half-spaces and the hyperplane itself (saturation without inclusion, and with it)
+      unsigned pk = r.below(meq), q = 0;
+      for (Constraint_System::const_iterator i = cs.begin(); i != cs.end(); ++i) if (i->is_equality()) { if (q++ == pk) {
+        Linear_Expression e(i->expression());
+        if (e.space_dimension() < n) e += 0 * Variable(n - 1);
+        switch (r.below(5)) { case 0: return e > 0; case 1: return -e > 0; case 2: return e >= 0; case 3: return e == 0; default: return -e >= 0; }
+      } }
+    }
     unsigned pick = r.below(m), j = 0;
     for (Constraint_System::const_iterator i = cs.begin(); i != cs.end(); ++i, ++j) if (j == pick) {
       Linear_Expression e(i->expression());
@@ -266,7 +276,7 @@ struct PHist {
         o << (mx ? "max" : "min"); put_expr(o, e, n);
         if (!ok) o << " none"; else o << " " << num << " " << den << " " << incl; break; }
       case 12: case 13: case 14: case 15: {
-        Constraint c = r.chance(1, 2) ? derived_c(s, n) : rnd_c(n, true);
+        Constraint c = r.chance(2, 3) ? derived_c(s, n) : rnd_c(n, true);
         Poly_Con_Relation rel = P.relation_with(c);
         o << "relcon"; put_con(o, c, n);
         o << " " << rel.implies(Poly_Con_Relation::is_disjoint()) << " " << rel.implies(Poly_Con_Relation::strictly_intersects())
@@ -306,7 +316,7 @@ struct PHist {
     Slot& S = slot[s]; PR& P = *S.p; dimension_type n = dim(s);
     OS o;
     bool reduces_first = false;
-    unsigned k = r.below(44);
+    unsigned k = r.below(50);
     try {
       switch (k) {
       case 0: case 1: case 2: case 3: case 4: case 5: refine(s); break;
@@ -415,6 +425,9 @@ struct PHist {
       return;
     }
     if (reduces_first) { S.raw_known = false; observe(s); }
+    // the Box operators with a known base-level defect are observed at once, so that the defect is attributed
+    // to them (component-wise, on the unreduced components) and does not leak into later judgements
+    else if (has_box && k >= 13 && k <= 22) observe(s);
     else if (k > 5 && k < 40 && r.chance(2, 3)) observe(s);     // short chains: a failure is attributed to few operators
   }
 
